@@ -71,6 +71,17 @@ theorem dec_error_split_independent (p : Params) (pieces pieces' : List (Method 
     Dec.output p pieces = Dec.output p pieces' := by
   rw [DecProof.output_eq_decRun, DecProof.output_eq_decRun, h]
 
+/-- Which verdict for which input: for any segmentation and methods the decoder returns what
+the error-reporting batch decoder `DecProof.decodeE` returns on the concatenated input — chunk
+by chunk: `InvalidInitialSizeHeader(b)` iff the first byte exceeds `max_initial_size`;
+`InvalidHeaderByte(false, b)` / `(true, c)` for the first 2-byte header with a digit `≥ radix`
+(first digit checked first, also when the second byte is missing); `InvalidSubsequentSizeHeader(n)`
+for the first in-radix header above `max_subsequent_size`; `CutShort` when the input is empty or
+ends inside a header or a body; `MissingImplicitTerminator` when it ends after a full-size chunk. -/
+theorem dec_error_classified (p : Params) (pieces : List (Method × List UInt8)) :
+    Dec.output p pieces = DecProof.decodeE p (pieces.map (·.2)).flatten := by
+  rw [DecProof.output_eq_decRun, DecProof.decRun_eq_decodeE]
+
 /-- No panic site of the decoder is reachable: in every state the decoder can be in (any
 pieces, any methods, any input whatsoever), every `NonZeroU32::new(..).unwrap()`, the
 `assert_eq!` of `InChunk::update` and the caller's `&input[consumed..]` are passed, and each
@@ -135,6 +146,8 @@ example : Dec.output tp [(.copy, [0, 6, 0])] = .error (.invalidSubsequentSizeHea
 example : Dec.output tp [(.copy, [2, 0x31])] = .error .cutShort := by rfl
 example : Dec.output tp [(.copy, [3, 0x31, 0x32, 0x33])] = .error .missingImplicitTerminator := by rfl
 example : Spec.decode tp [3, 0x31, 0x32, 0x33] = none := by decide
+example : DecProof.decodeE tp [0, 6, 0] = .error (.invalidSubsequentSizeHeader 6) := by rfl
+example : DecProof.decodeE tp [0, 0xFD] = .error (.invalidHeaderByte false 0xFD) := by rfl
 -- the reachable-state hypothesis of `dec_total` is met by a mid-chunk state
 example : DecProof.Reachable tp (.inChunk 2 true) :=
   DecProof.Reachable.step (m := .copy) (b := 2) (rest := []) (o := ⟨.inChunk 2 true, 1, []⟩)
